@@ -229,6 +229,11 @@ def crosscheck_function(rep, con, n_inputs, seed):
                         bad = f'path {s.path}: executor result differs from CPython {nat[1]!r}'
                         break
             if bad is None and feasible == 0:
+                # inputs outside the contract's precondition are not part of the comparison
+                if not _pre_holds(con, nat_args):
+                    out['inputs'] -= 1
+                    out['outside_precondition'] = out.get('outside_precondition', 0) + 1
+                    continue
                 bad = 'no executor path is feasible for this input'
             if bad:
                 out['disagreements'].append({'case': label, 'input': repr(nat_args), 'native': repr(nat), 'why': bad})
@@ -249,3 +254,16 @@ def _with_hyps(s, maxlen):
     t.__dict__.update(s.__dict__)
     t.hyps = s.ctx.hyps(extra_terms=list(range(0, min(maxlen, 12) + 1))) + list(s.ctx.definitions)
     return t
+
+
+def _pre_holds(con, nat_args) -> bool:
+    if con.requires is None:
+        return True
+    try:
+        from .contracts import nview, _as_dict
+        from .runner import native_tags, _truth
+        view = {k: nview(v) for k, v in nat_args.items()}
+        pre = _as_dict(con.call(con.requires, view, native_tags(nat_args)))
+        return all(_truth(f) for f in pre.values())
+    except Exception:
+        return False
